@@ -388,19 +388,20 @@ theorem decode_ok_segs {p : Parts} {o : Opts} (h : decode p = .ok o) :
 def hostOf (p : Parts) : Bytes :=
   if p.host = none ∨ p.host = some [] then kLocalhost else p.host.getD []
 
-/-- `openUrl` once the URL parsed and a host can be filled in. -/
+/-- `openUrl` once the URL parsed and a host can be filled in.  (After fix D21 the secure-only
+    check on an `amqp` URL comes before `decode`.) -/
 theorem openUrl_eq (allow : Bool) (p : Parts) (hp : p.parsed = true)
     (hh : ¬((p.host = none ∨ p.host = some []) ∧ p.cannotBeABase = true)) :
     openUrl allow p =
       if p.scheme = kAmqp then
-        match decode p with
-        | .error e => .error e
-        | .ok o =>
-          if allow then
+        if allow then
+          match decode p with
+          | .error e => .error e
+          | .ok o =>
             .ok { secure := false, host := hostOf p, port := p.port.getD 5672, auth := o.auth,
                   vhost := o.vhost, heartbeat := o.heartbeat, channelMax := o.channelMax,
                   timeoutMs := o.timeoutMs }
-          else .error .insecureUrl
+        else .error .insecureUrl
       else if p.scheme = kAmqps then
         match decode p with
         | .error e => .error e
@@ -428,9 +429,12 @@ theorem openUrl_eq (allow : Bool) (p : Parts) (hp : p.parsed = true)
   simp only [hp, Bool.not_true, Bool.false_eq_true, if_false, hn, hhost]
   by_cases h1 : p.scheme = kAmqp
   · simp only [if_pos h1]
-    cases decode p with
-    | error e => rfl
-    | ok o => cases allow <;> rfl
+    cases allow with
+    | false => rfl
+    | true =>
+      cases decode p with
+      | error e => rfl
+      | ok o => rfl
   · simp only [if_neg h1]
     by_cases h2 : p.scheme = kAmqps
     · simp only [if_pos h2]
@@ -438,6 +442,13 @@ theorem openUrl_eq (allow : Bool) (p : Parts) (hp : p.parsed = true)
       | error e => rfl
       | ok o => cases allow <;> rfl
     · simp only [if_neg h2]
+
+/-- (fix D21) The secure-only entry points refuse EVERY `amqp` URL as insecure, whatever else is
+    wrong with it. -/
+theorem openUrl_false_amqp (p : Parts) (hp : p.parsed = true)
+    (hh : ¬((p.host = none ∨ p.host = some []) ∧ p.cannotBeABase = true))
+    (hs : p.scheme = kAmqp) : openUrl false p = .error .insecureUrl := by
+  rw [openUrl_eq false p hp hh, if_pos hs]; rfl
 
 theorem openUrl_ok_pre {allow : Bool} {p : Parts} {d : Decoded} (h : openUrl allow p = .ok d) :
     p.parsed = true ∧ ¬((p.host = none ∨ p.host = some []) ∧ p.cannotBeABase = true) := by
@@ -477,14 +488,15 @@ theorem openUrl_ok_full {allow : Bool} {p : Parts} {d : Decoded} (h : openUrl al
   rw [openUrl_eq allow p hp hh] at h
   by_cases h1 : p.scheme = kAmqp
   · rw [if_pos h1] at h
-    cases hd : decode p with
-    | error e => rw [hd] at h; cases h
-    | ok o =>
-      rw [hd] at h
-      cases allow with
-      | false => cases h
-      | true =>
-        simp only [if_true, Except.ok.injEq] at h
+    cases allow with
+    | false => cases h
+    | true =>
+      simp only [if_true] at h
+      cases hd : decode p with
+      | error e => rw [hd] at h; cases h
+      | ok o =>
+        rw [hd] at h
+        simp only [Except.ok.injEq] at h
         exact ⟨o, rfl, Or.inl ⟨h1, rfl, h.symm⟩⟩
   · rw [if_neg h1] at h
     by_cases h2 : p.scheme = kAmqps
@@ -511,7 +523,7 @@ theorem openUrl_insecure_rejected {p : Parts} (d : Decoded) (h : openUrl true p 
     (hs : d.secure = false) : openUrl false p = .error .insecureUrl := by
   obtain ⟨hp, hh⟩ := openUrl_ok_pre h
   obtain ⟨o, hdec, ⟨hsch, _, rfl⟩ | ⟨hsch, rfl⟩⟩ := openUrl_ok_full h
-  · rw [openUrl_eq false p hp hh, if_pos hsch, hdec]; rfl
+  · exact openUrl_false_amqp p hp hh hsch
   · cases hs
 
 theorem openUrl_secure_same {p : Parts} (d : Decoded) (h : openUrl true p = .ok d)
@@ -541,18 +553,14 @@ theorem openUrl_pre_fail (allow : Bool) (p : Parts)
       rw [h'.2]; rcases h'.1 with h1 | h1 <;> simp [h1]
     simp [this]
 
-theorem openUrl_error_same {p : Parts} (e : Err) (h : openUrl true p = .error e) :
-    openUrl false p = .error e := by
+/-- For a URL that is not `amqp` the two kinds of entry point fail alike.  (For an `amqp` URL
+    they do not, after fix D21: `openUrl false` says `insecureUrl` whatever `openUrl true` says.) -/
+theorem openUrl_error_same {p : Parts} (e : Err) (h : openUrl true p = .error e)
+    (hs : p.scheme ≠ kAmqp) : openUrl false p = .error e := by
   by_cases hpre : p.parsed = true ∧ ¬((p.host = none ∨ p.host = some []) ∧ p.cannotBeABase = true)
-  · rw [openUrl_eq true p hpre.1 hpre.2] at h
-    rw [openUrl_eq false p hpre.1 hpre.2]
-    by_cases h1 : p.scheme = kAmqp
-    · rw [if_pos h1] at h ⊢
-      cases hd : decode p with
-      | error e' => rw [hd] at h; exact h
-      | ok o => rw [hd] at h; cases h
-    · rw [if_neg h1] at h ⊢
-      exact h
+  · rw [openUrl_eq true p hpre.1 hpre.2, if_neg hs] at h
+    rw [openUrl_eq false p hpre.1 hpre.2, if_neg hs]
+    exact h
   · rw [openUrl_pre_fail true p hpre] at h
     rw [openUrl_pre_fail false p hpre]
     exact h
